@@ -8,6 +8,7 @@ package world
 
 import (
 	"fmt"
+	"regexp"
 	"strings"
 )
 
@@ -40,6 +41,19 @@ var Error = Basic("error")
 
 // String renders the type as seen from package `from` ("" = p).
 func (t *Ty) String() string { return t.Str("") }
+
+var aliasRE = regexp.MustCompile(`\b(byte|rune)\b`)
+
+// ID is the type as written with the predeclared aliases resolved (byte is
+// uint8, rune is int32): two types with the same ID are identical.
+func (t *Ty) ID() string {
+	return aliasRE.ReplaceAllStringFunc(t.Str(""), func(m string) string {
+		if m == "byte" {
+			return "uint8"
+		}
+		return "int32"
+	})
+}
 
 func (t *Ty) Str(from string) string {
 	switch t.K {
@@ -363,19 +377,19 @@ func (w *World) OrderedBasic(t *Ty) bool {
 func (w *World) assignKey(t *Ty) string {
 	if t.K == "named" && t.Pkg != "ext" && t.Pkg != "oext" && t.Pkg != "op" {
 		if d := w.decl(t.Name); d != nil && !d.Struct && d.Under.K != "basic" {
-			return "~" + d.Under.Str("")
+			return "~" + d.Under.ID()
 		}
 	}
 	if t.K == "chan" {
-		return "~chan " + t.Elem.Str("")
+		return "~chan " + t.Elem.ID()
 	}
 	if t.K == "func" {
-		return "~" + t.Str("")
+		return "~" + t.ID()
 	}
 	if t.K == "slice" || t.K == "map" || t.K == "ptr" || t.K == "array" {
-		return "~" + t.Str("")
+		return "~" + t.ID()
 	}
-	return t.Str("")
+	return t.ID()
 }
 
 // assignable mirrors goderive's notion of "same argument type"
@@ -384,24 +398,24 @@ func (w *World) assignKey(t *Ty) string {
 // non-basic, non-struct type identical to the other (unnamed) side; channel
 // types that differ only in direction count as well.
 func (w *World) assignable(a, b *Ty) bool {
-	if a.Str("") == b.Str("") {
+	if a.ID() == b.ID() {
 		return true
 	}
 	ua, ub := w.under(a), w.under(b)
-	if ua != a && ua.K != "basic" && b.K != "named" && ua.Str("") == b.Str("") {
+	if ua != a && ua.K != "basic" && b.K != "named" && ua.ID() == b.ID() {
 		return true
 	}
-	if ub != b && ub.K != "basic" && a.K != "named" && ub.Str("") == a.Str("") {
+	if ub != b && ub.K != "basic" && a.K != "named" && ub.ID() == a.ID() {
 		return true
 	}
-	if a.K == "chan" && b.K == "chan" && a.Elem.Str("") == b.Elem.Str("") {
+	if a.K == "chan" && b.K == "chan" && a.Elem.ID() == b.Elem.ID() {
 		return true
 	}
 	if a.K == "func" && b.K == "func" {
 		// parameter names do not matter for identity
 		x, y := *a, *b
 		x.PNames, y.PNames = 1, 1
-		return x.Str("") == y.Str("")
+		return x.ID() == y.ID()
 	}
 	return false
 }
